@@ -174,15 +174,16 @@ class Gen:
         if t["n"] > 0:
             for i in range(t["n"]):
                 vdecl.append("    V{},".format(i))
-            frm_body = "unsafe { std::mem::transmute::<%s, %s>(v.n as %s) }" % (big_repr(t), name, big_repr(t))
-            src = "#[derive(Savefile, Debug, Clone, Copy, PartialEq)]\n#[repr({})]\npub enum {} {{\n{}\n}}\n".format(
-                big_repr(t), name, "\n".join(vdecl))
-            if t["s"]:
-                pass
+            reprl = "#[repr({})]\n".format(t["s"]) if t["s"] else ""
+            src = "#[derive(Savefile, Debug, Clone, Copy, PartialEq)]\n{}pub enum {} {{\n{}\n}}\n".format(
+                reprl, name, "\n".join(vdecl))
+            table = "ALL_" + name
+            src += "static {}: [{}; {}] = [{}];\n".format(table, name, t["n"], ", ".join("{}::V{}".format(name, i) for i in range(t["n"])))
             src += ("impl vcommon::Model for {n} {{\n"
-                    "    fn from_model(v: &vcommon::MV) -> Self {{ assert!((v.n as usize) < {cnt}); {b} }}\n"
+                    "    fn from_model(v: &vcommon::MV) -> Self {{ {tb}[v.n as usize] }}\n"
                     "    fn to_model(&self) -> vcommon::MV {{ vcommon::MV::ev(*self as usize, vec![]) }}\n}}\n").format(
-                        n=name, cnt=t["n"], b=frm_body)
+                        n=name, tb=table)
+            src += "impl Default for {n} {{ fn default() -> Self {{ {n}::V0 }} }}\n".format(n=name)
             self.defs[name] = src
             self.order.append(name)
             return name
@@ -237,6 +238,13 @@ class Gen:
                 offs.append("std::mem::offset_of!({}, {})".format(rust, i))
                 fsizes.append("std::mem::size_of::<{}>()".format(self.ty(ft)))
         self.entries[key] = (rust, offs, fsizes)
+        # composite children are registered too, so that layout trees can be resolved recursively
+        kids = list(t["ts"])
+        if t["k"] == "enum":
+            kids = [f for var in t["ts"] for f in var["ts"]]
+        for c in kids:
+            if c["k"] in ("struct", "tup", "enum", "arr") or (c["k"] == "box" and c["s"] == "Cell"):
+                self.add(c)
 
     def field_rust(self, t, i):
         a = t["fa"][i]
